@@ -473,6 +473,81 @@ wcodes = {n: int(v, 0) for n, v in re.findall(r"(EXCEPTION_ACCESS_VIOLATION|EXCE
 if set(wcodes) != {"EXCEPTION_ACCESS_VIOLATION", "EXCEPTION_IN_PAGE_ERROR"}:
     die("ExceptionCodeWindows: EXCEPTION_ACCESS_VIOLATION / EXCEPTION_IN_PAGE_ERROR values not found")
 
+# ------------------------------------------------------------------ Os / platform id / crash-reason classes (minidump crate)
+os_variants = [v.strip() for v in norm(fn_body(si, r"pub enum Os\s*\{", "enum Os")).split(",") if v.strip()]
+if not os_variants or os_variants[-1] != "Unknown(u32)" or not all(re.fullmatch(r"\w+", v) for v in os_variants[:-1]):
+    die("enum Os has an unrecognised shape: %r" % os_variants)
+oses = os_variants[:-1] + ["Unknown"]
+plat_vals = {n: int(v, 0) for n, v in re.findall(r"(\w+)\s*=\s*(0x[0-9a-fA-F]+|\d+)\s*,",
+                                                 fn_body(fmt, r"pub enum PlatformId\s*\{", "enum PlatformId"))}
+fp = norm(fn_body(si, r"pub fn from_platform_id\(id: u32\) -> Os\s*\{", "from_platform_id"))
+m = re.fullmatch(r"match PlatformId::from_u32\(id\) \{ (.*) _ => Os::Unknown\(id\), \}", fp)
+if not m:
+    die("from_platform_id has an unrecognised shape: " + fp)
+parm = r"((?:\|? ?Some\(PlatformId::\w+\) ?)+)=> Os::(\w+),"
+plat_map = []
+for pats, o in re.findall(parm, m.group(1)):
+    if o not in oses or o == "Unknown":
+        die("from_platform_id: unknown Os " + o)
+    for a in re.findall(r"PlatformId::(\w+)", pats):
+        if a not in plat_vals:
+            die("from_platform_id: no numeric value for PlatformId::" + a)
+        plat_map.append((plat_vals[a], o))
+if re.sub(parm, "", m.group(1)).strip():
+    die("from_platform_id: unrecognised arm in " + m.group(1))
+fe = norm(fn_body(mdrs, r"fn from_exception\(raw: &md::MINIDUMP_EXCEPTION_STREAM, os: Os, cpu: Cpu\) -> CrashReason\s*\{", "CrashReason::from_exception"))
+m = re.search(r"let reason = match os \{ (.*?) _ => None, \};", fe)
+if not m:
+    die("CrashReason::from_exception: the per-OS dispatch is not recognised: " + fe)
+farm = r"((?:\|? ?Os::\w+ ?)+)=> Self::from_(\w+)_exception\(raw, cpu\),"
+fam_of = {}
+for pats, famname in re.findall(farm, m.group(1)):
+    if famname not in ("windows", "mac", "linux"):
+        die("from_exception: unknown family " + famname)
+    for o in re.findall(r"Os::(\w+)", pats):
+        fam_of[o] = famname
+if re.sub(farm, "", m.group(1)).strip():
+    die("from_exception: unrecognised arm in " + m.group(1))
+if "reason.unwrap_or(CrashReason::Unknown(exception_code, exception_flags))" not in fe:
+    die("from_exception: default reason changed")
+# the fragments of the three family functions the GPF test depends on
+fw = norm(fn_body(mdrs, r"pub fn from_windows_exception\(", "from_windows_exception"))
+if ("let mut reason = CrashReason::from_windows_code(exception_code);" not in fw or
+        "CrashReason::WindowsGeneral(ExceptionCodeWindows::EXCEPTION_ACCESS_VIOLATION) => { if record.number_parameters >= 1 { "
+        "if let Some(ty) = err::ExceptionCodeWindowsAccessType::from_u64(info[0]) { reason = CrashReason::WindowsAccessViolation(ty); } } }" not in fw):
+    die("from_windows_exception: the EXCEPTION_ACCESS_VIOLATION refinement changed:\n" + fw[:1500])
+fwc = norm(fn_body(mdrs, r"pub fn from_windows_code\(exception_code: u32\) -> CrashReason\s*\{", "from_windows_code"))
+if not fwc.startswith("if let Some(err) = err::ExceptionCodeWindows::from_u32(exception_code) { Self::WindowsGeneral(err) }"):
+    die("from_windows_code changed: " + fwc)
+fl = norm(fn_body(mdrs, r"pub fn from_linux_exception\(", "from_linux_exception"))
+for frag in ("let linux_reason = err::ExceptionCodeLinux::from_u32(exception_code)?; let mut reason = CrashReason::LinuxGeneral(linux_reason, exception_flags);",
+             "err::ExceptionCodeLinux::SIGSEGV => { if let Some(ty) = err::ExceptionCodeLinuxSigsegvKind::from_u32(exception_flags) { reason = CrashReason::LinuxSigsegv(ty); } }",
+             "err::ExceptionCodeLinux::SIGBUS => { if let Some(ty) = err::ExceptionCodeLinuxSigbusKind::from_u32(exception_flags) { reason = CrashReason::LinuxSigbus(ty); } }"):
+    if frag not in fl:
+        die("from_linux_exception: changed around: " + frag)
+fm = norm(fn_body(mdrs, r"pub fn from_mac_exception\(", "from_mac_exception"))
+for frag in ("let mac_reason = err::ExceptionCodeMac::from_u32(exception_code)?; let mut reason = CrashReason::MacGeneral(mac_reason, exception_flags);",
+             "ExceptionCodeMac::EXC_BAD_ACCESS => { if let Some(ty) = err::ExceptionCodeMacBadAccessKernType::from_u32(exception_flags) { "
+             "reason = CrashReason::MacBadAccessKern(ty); } else { match cpu {",
+             "Cpu::X86 | Cpu::X86_64 => { if let Some(ty) = err::ExceptionCodeMacBadAccessX86Type::from_u32(exception_flags) { "
+             "reason = CrashReason::MacBadAccessX86(ty); } }"):
+    if frag not in fm:
+        die("from_mac_exception: changed around: " + frag)
+mc = rd("minidump-common/src/errors/macos.rs")
+
+
+def enum_vals(src, name):
+    return {n: int(v, 0) for n, v in re.findall(r"(\w+)\s*=\s*(0x[0-9a-fA-F]+|\d+)(?:u32|u64)?\s*,", fn_body(src, r"pub enum %s\s*\{" % name, name))}
+
+
+mac_codes = enum_vals(mc, "ExceptionCodeMac")
+mac_kern = enum_vals(mc, "ExceptionCodeMacBadAccessKernType")
+mac_x86 = enum_vals(mc, "ExceptionCodeMacBadAccessX86Type")
+segv_kinds = enum_vals(lx, "ExceptionCodeLinuxSigsegvKind")
+bus_kinds = enum_vals(lx, "ExceptionCodeLinuxSigbusKind")
+if "EXC_BAD_ACCESS" not in mac_codes or "EXC_I386_GPFLT" not in mac_x86 or not mac_kern or not segv_kinds or not bus_kinds:
+    die("macOS / Linux error enums: expected members not found")
+
 # ------------------------------------------------------------------ amd64 register names (BTreeSet<&'static str> order, rsp)
 cx = rd("minidump/src/context.rs")
 m = re.search(r"impl CpuContext for md::CONTEXT_AMD64 \{\s*type Register = u64;\s*const REGISTERS: &'static \[&'static str\] = &\[(.*?)\];", cx, re.S)
@@ -563,6 +638,24 @@ L.append("")
 L.append("(* get_crash_address (pinned textually): the Windows exception codes whose exception_information[1] is the address *)")
 L.append("Definition WIN_EXCEPTION_ACCESS_VIOLATION : Z := %d." % wcodes["EXCEPTION_ACCESS_VIOLATION"])
 L.append("Definition WIN_EXCEPTION_IN_PAGE_ERROR : Z := %d." % wcodes["EXCEPTION_IN_PAGE_ERROR"])
+L.append("")
+L.append("(* system_info::Os, Os::from_platform_id over MINIDUMP_SYSTEM_INFO.platform_id, and which family function")
+L.append("   CrashReason::from_exception dispatches to (0 windows, 1 mac, 2 linux, 3 none) *)")
+L.append("Inductive gosx := " + " | ".join("GOs" + o for o in oses) + ".")
+e = "GOsUnknown"
+for v, o in reversed(plat_map):
+    e = "if id =? %d then GOs%s else %s" % (v, o, e)
+L.append("Definition os_of_platform_id (id : Z) : gosx := " + e + ".")
+famn = {"windows": 0, "mac": 1, "linux": 2}
+L.append("Definition g_reason_family (o : gosx) : Z := match o with " +
+         " | ".join("GOs%s => %d" % (o, famn[fam_of[o]] if o in fam_of else 3) for o in oses) + " end.")
+L.append("Definition WIN_ACCESS_TYPES : list Z := [%s]." % "; ".join(str(v) for v in sorted(wacc.values())))
+L.append("Definition LINUX_SIGSEGV_KINDS : list Z := [%s]." % "; ".join(str(v) for v in sorted(segv_kinds.values())))
+L.append("Definition LINUX_SIGBUS_KINDS : list Z := [%s]." % "; ".join(str(v) for v in sorted(bus_kinds.values())))
+L.append("Definition MAC_EXC_BAD_ACCESS : Z := %d." % mac_codes["EXC_BAD_ACCESS"])
+L.append("Definition MAC_BAD_ACCESS_KERN_TYPES : list Z := [%s]." % "; ".join(str(v) for v in sorted(mac_kern.values())))
+L.append("Definition MAC_BAD_ACCESS_X86_TYPES : list Z := [%s]." % "; ".join(str(v) for v in sorted(mac_x86.values())))
+L.append("Definition MAC_EXC_I386_GPFLT : Z := %d." % mac_x86["EXC_I386_GPFLT"])
 L.append("")
 L.append("(* CONTEXT_AMD64::REGISTERS = %s; register id = position in that list (valid_registers() order).")
 L[-1] = L[-1] % " ".join(amd64_regs)
